@@ -112,11 +112,24 @@ fn run18<T: Est>(c: &S18, o: &mut Obs) -> TestResult {
     if let Some(d) = snap_diff(&before, &r.snap()) {
         return fail("serde:restored-differs", format!("{}: restored estimator differs after {} operations: {} (document {})", T::NAME, cp, d, s));
     }
+    // second lossless format: the Value tree (exercises the Deserialize impl through a different Deserializer)
+    let mut r2 = match e.to_value().and_then(T::from_value) {
+        Ok(r2) => r2,
+        Err(m) => return fail("serde:value-roundtrip", format!("{}: round trip through serde_json::Value failed: {}", T::NAME, m)),
+    };
+    o.evals += 1;
+    if let Some(d) = snap_diff(&before, &r2.snap()) {
+        return fail("serde:restored-differs", format!("{}: estimator restored from a serde_json::Value differs after {} operations: {}", T::NAME, cp, d));
+    }
     // continue the stream on both
     for (k, op) in c.ops[cp..].iter().enumerate() {
         apply(&mut e, op);
         apply(&mut r, op);
-        o.evals += 1;
+        apply(&mut r2, op);
+        o.evals += 2;
+        if let Some(d) = snap_diff(&e.snap(), &r2.snap()) {
+            return fail("serde:continuation-differs", format!("{}: {} operations after the round trip through serde_json::Value (checkpoint {}) the restored copy diverges: {}", T::NAME, k + 1, cp, d));
+        }
         if let Some(d) = snap_diff(&e.snap(), &r.snap()) {
             return fail("serde:continuation-differs", format!("{}: {} operations after the round trip (checkpoint {}) the restored copy diverges: {}", T::NAME, k + 1, cp, d));
         }
@@ -181,7 +194,7 @@ pub fn sop_strategy(kind: Kind) -> impl Strategy<Value = SOp> {
 }
 
 pub fn run(cx: &Ctx) {
-    cx.set_rule("cases = (type, stream of adds and merges over the C01 domain, checkpoint position c in 0..=len) for Mean, Variance, Skewness, Kurtosis, Moments4, define_moments! orders 6 and 10, Min, Max, Quantile (p = 0.5, 0.9, 0.01), WeightedMean, WeightedMeanWithError, Covariance and define_histogram! types (LEN 3, 10, 100, finite edges): s = serde_json::to_string(e) (float_roundtrip); precondition: parsing s into serde_json::Value and printing it gives s again (lossless on this document — otherwise discarded and counted); e' = from_str(s); to_string(e') == s; every accessor of e' bit-equal to e's; serialising leaves e unchanged; then the remaining operations are applied to both and all accessors compared bit-for-bit after EACH step. Short streams take every checkpoint position. Non-trivial = 0 < c < len and the tail contains at least one add; distinct = hash of (type, stream, checkpoint)");
+    cx.set_rule("cases = (type, stream of adds and merges over the C01 domain, checkpoint position c in 0..=len) for Mean, Variance, Skewness, Kurtosis, Moments4, define_moments! orders 6 and 10, Min, Max, Quantile (p = 0.5, 0.9, 0.01), WeightedMean, WeightedMeanWithError, Covariance and define_histogram! types (LEN 3, 10, 100, finite edges): two lossless formats — JSON text with float_roundtrip and the serde_json::Value tree —: s = serde_json::to_string(e); precondition: parsing s into serde_json::Value and printing it gives s again (lossless on this document — otherwise discarded and counted); e' = from_str(s); to_string(e') == s; every accessor of e' bit-equal to e's; serialising leaves e unchanged; then the remaining operations are applied to both and all accessors compared bit-for-bit after EACH step. Short streams take every checkpoint position. Non-trivial = 0 < c < len and the tail contains at least one add; distinct = hash of (type, stream, checkpoint)");
     cx.assume("states with non-finite fields (empty Min/Max) cannot be carried by JSON and are outside the property: discarded and counted");
     cx.label("every-checkpoint");
     for ty in SERDE_TYPES {
